@@ -488,11 +488,11 @@ func checkC05(t *testing.T, job *Job, res *Result) {
 		exploreH(t, job, res, c05HSpec(tier))
 	}
 	res.Engine = "S+H"
-	res.Rule += "; engine H part: every history up to the depth bound over deploy/redeploy/remove of three services with bindings from {default, a.example.com, *.example.com, a+b} x {/, /api, /+/api, /app, /app+/api}; oracle: reference ownership map predicts each result (nil or host-in-use) and every cell of the routing matrix"
+	res.Rule += "; engine H part: every history up to the depth bound over deploy/redeploy/remove of three services with bindings from {default, a.example.com, *.example.com, a+b, a host written with capitals} x {/, /api, /+/api, /app, /app+/api}; oracle: reference ownership map predicts each result (nil or host-in-use) and every cell of the routing matrix"
 }
 
 func c05HSpec(tier string) *HSpec {
-	hosts := []string{"-", "a.example.com", "*.example.com", "a.example.com,b.example.com"}
+	hosts := []string{"-", "a.example.com", "*.example.com", "a.example.com,b.example.com", "App.Example.com"} // the last one: a host written with capitals
 	paths := []string{"/", "/api"}
 	depth := 3
 	if tier == "thorough" {
@@ -530,7 +530,7 @@ func c05HSpec(tier string) *HSpec {
 			}
 			return alpha
 		},
-		Obs:     ObsSpec{Hosts: []string{"a.example.com", "b.example.com:8080", "x.example.com", "other.org"}, Paths: []string{"/", "/api", "/api/x", "/apiary", "/app/y"}, Cookies: []string{""}, TLS: []bool{false}},
+		Obs:     ObsSpec{Hosts: []string{"a.example.com", "b.example.com:8080", "x.example.com", "other.org", "App.Example.com"}, Paths: []string{"/", "/api", "/api/x", "/apiary", "/app/y"}, Cookies: []string{""}, TLS: []bool{false}},
 		Clauses: map[string]bool{"routing": true, "target-set": true, "list": true, "gate": true, "tls-policy": true},
 	}
 }
